@@ -1372,7 +1372,7 @@ def _z3_check(forms, goal, timeout_ms):
     return s.check(), s
 
 
-def prove(hyps, goal, timeout_ms=20000, extra_axioms=(), nonneg=True, use_cvc5=None):
+def prove(hyps, goal, timeout_ms=20000, extra_axioms=(), nonneg=True, use_cvc5=None, scale=1):
     """staged portfolio; returns (status, solver, time_s, model_or_None, lemmas_used)"""
     t0 = time.time()
     if z3.is_true(goal):
@@ -1383,11 +1383,12 @@ def prove(hyps, goal, timeout_ms=20000, extra_axioms=(), nonneg=True, use_cvc5=N
     lem_used = []
     sax = []
     if nonneg:
-        sax, lem_used = sum_axioms([goal], base)
+        qc0 = {}
+        sax, lem_used = sum_axioms([goal] + [h for h in hyps if not _has_quant(h, qc0)][-30:], base)
     allf = base + sax
     fax = fn_axioms(allf + [goal])
     # stage 1: plain, short
-    r, s = _z3_check(allf + fax, goal, min(3000, timeout_ms))
+    r, s = _z3_check(allf + fax, goal, min(3000 * scale, timeout_ms))
     if r == z3.unsat:
         return "proved", "z3", time.time() - t0, None, lem_used
     model = s.model() if r == z3.sat else None
@@ -1397,14 +1398,14 @@ def prove(hyps, goal, timeout_ms=20000, extra_axioms=(), nonneg=True, use_cvc5=N
     if max_:
         lem_used = sorted(set(lem_used + mused))
         allf = allf + max_
-        r, s = _z3_check(allf + fax, goal, min(3000, timeout_ms))
+        r, s = _z3_check(allf + fax, goal, min(3000 * scale, timeout_ms))
         if r == z3.unsat:
             return "proved", "z3", time.time() - t0, None, lem_used
         model = s.model() if r == z3.sat else None
     if r == z3.sat:
         return "refuted", "z3", time.time() - t0, model, lem_used
     # stage 3: quantifier-free purified attempt (nonlinear real arithmetic)
-    if prove_qf(allf + fax, goal, min(10000, timeout_ms)):
+    if prove_qf(allf + fax, goal, min(10000 * scale, timeout_ms)):
         return "proved", "z3-qf", time.time() - t0, None, lem_used
     # stage 4: plain, long
     r, s = _z3_check(allf + fax, goal, timeout_ms)
